@@ -70,7 +70,7 @@ theorem s2mStep_dup_same {c : Cfg} {w : W} {name : Bytes} {d : Dbi} (hdist : Dis
   have hr : readDBI c w (shadowName name) name false = .ok
       { name := name, flags := d.flags,
         transform := if isDupSort d.flags then strBytes Gen.transformDupSortHackV1 else [], entries := es } := by
-    rw [readDBI_eq, hsd]
+    rw [readDBI_eqMirror, hsd]
     simp only [if_pos hne, hd, bind, Except.bind, pure, Except.pure]
     exact readTail_eq (by simp [hh]) hes
   unfold s2mStep
